@@ -49,13 +49,17 @@ func (rt *runtime) cmplEvaluateNodeExpression(node nodeExpression) Value {
 
 	case *nodeFunctionLiteral:
 		local := rt.scope.lexical
+		var named *dclStash
 		if node.name != "" {
-			local = rt.newDeclarationStash(local)
+			named = rt.newDeclarationStash(local)
+			local = named
 		}
 
 		value := objectValue(rt.newNodeFunction(node, local))
-		if node.name != "" {
-			local.createBinding(node.name, false, value)
+		if named != nil {
+			// The name of a function expression is an immutable binding (ECMA 262 13):
+			// an assignment to it inside the function is ignored.
+			named.property[node.name] = dclProperty{value: value, readable: true}
 		}
 		return value
 
